@@ -100,11 +100,11 @@ def find_peaks(
             next_hit = hits[hit_i + 1]
             next_hit_is_far = next_hit["time"] - peak_endtime >= gap_threshold
             # Peaks may not extend the max_duration
+            # p["time"] already includes the left extension
             peak_too_long = (
                 next_hit["time"]
                 - p["time"]
                 + next_hit["dt"] * next_hit["length"]
-                + left_extension
                 + right_extension
             ) > max_duration
         if is_last_hit or next_hit_is_far or peak_too_long:
